@@ -64,6 +64,7 @@ type FSWorld struct {
 	mOpen      bool
 	mBytes     int64
 	mOpenedAt  int64
+	mOpenedBy  int64 // clock at the end of the call that opened the active file: LastCreated lies in [mOpenedAt, mOpenedBy]
 	mActive    *fsFile
 	lastStamp  int64
 	evNo       int
@@ -89,7 +90,9 @@ func NewFSWorld(cfg FSCfg, root string, c15 bool) *FSWorld {
 		w.files = append(w.files, &fsFile{path: filepath.Join(w.Sub, fsBase), content: pre, external: w.rotateEnabled() && !cfg.TSOnly})
 		w.acked = append(w.acked, pre)
 		// (the last two share the "<base>-" prefix but not the extension: still not the sink's files)
-		for _, b := range []string{"other.log", "audit.txt", "xaudit-1.log", "audit-0-archive.tar.gz", "audit-9999999999999999999.log.bak"} {
+		for _, b := range []string{"other.log", "audit.txt", "xaudit-1.log", "audit-0-archive.tar.gz", "audit-9999999999999999999.log.bak",
+			// a sibling sink's files and a look-alike: the sink's own are "<base>-<timestamp><ext>" only
+			"audit2.log", "audit2-1700000000000000001.log", "audit_notes.log"} {
 			os.WriteFile(filepath.Join(w.Sub, b), []byte("bystander"), 0o644)
 			w.bystanders = append(w.bystanders, filepath.Join(w.Sub, b))
 		}
@@ -303,7 +306,7 @@ func (w *FSWorld) noteOpen(t0, t1 int64, rotation bool) {
 	if w.mActive != nil && rotation {
 		w.mActive.rotated = true
 	}
-	w.mOpen, w.mBytes, w.mOpenedAt = true, 0, t0
+	w.mOpen, w.mBytes, w.mOpenedAt, w.mOpenedBy = true, 0, t0, t1
 	// which file is active now
 	var act *fsFile
 	plain := filepath.Join(w.Sub, fsBase)
@@ -374,8 +377,8 @@ func (w *FSWorld) checkCounters(t0, t1 int64) {
 		w.fail("FileSink.BytesWritten=%d, bytes acknowledged since the file was opened=%d", w.FS.BytesWritten, w.mBytes)
 	}
 	lc := w.FS.LastCreated.UnixNano()
-	if lc < w.mOpenedAt || lc > t1 {
-		w.fail("FileSink.LastCreated=%d is not the time the active file was opened (between %d and %d)", lc, w.mOpenedAt, t1)
+	if lc < w.mOpenedAt || lc > w.mOpenedBy {
+		w.fail("FileSink.LastCreated=%d is not the time the active file was opened (between %d and %d)", lc, w.mOpenedAt, w.mOpenedBy)
 	}
 }
 
